@@ -621,6 +621,11 @@ _fault = st.one_of(
     st.tuples(st.just(("head", "accept_ranges")), st.sampled_from(["", "none", "Bytes"])),
     st.tuples(st.just(("head", "raise")), _raise),
     st.tuples(st.just(("head", "delay")), st.just(5.0)),
+    # transient faults: the first 1-2 requests of that kind fail, the retry reaches the origin (and whatever
+    # redirect plan / lie the script holds for it)
+    st.tuples(st.just(("head", "transient")), st.tuples(_raise, st.sampled_from([1, 1, 2])).map(list)),
+    st.tuples(st.just(("probe", "transient")), st.tuples(_raise, st.sampled_from([1, 1, 2])).map(list)),
+    st.tuples(st.just(("get", "transient")), st.tuples(_raise, st.sampled_from([1, 1, 2])).map(list)),
     st.tuples(st.just(("probe", "mode")), st.sampled_from(["206_total_small", "206_total_big", "206_no_cr", "206_long", "206_empty", "200", "403", "416", "500"])),
     st.tuples(st.just(("probe", "extend_to")), st.just(200000)),
     st.tuples(st.just(("probe", "raise")), _raise),
@@ -660,6 +665,8 @@ def _build_script(faults: list[Any], fail_after: int, extend_to: int, piece: int
             s["ce_declared"] = val
         elif a == "redirects":
             s["redirects"][b] = dict(val)
+        elif b == "transient":
+            s[a]["raise"], s[a]["raise_n"] = val[0], int(val[1])
         else:
             s[a][b] = val
     return s
@@ -777,6 +784,35 @@ resolve_cases = st.fixed_dictionaries(
 )
 
 
+def _retry_script(errs: list[str], n: int, rkinds: list[str], rspec: dict[str, Any], extra: list[Any], piece: int) -> dict[str, Any]:
+    faults = [(("head", "transient"), [errs[0], n]), (("probe", "transient"), [errs[1], n]), (("get", "transient"), [errs[2], n]), *extra]
+    return _build_script(faults, 0, 5000, piece, 0.01, (rkinds, rspec))
+
+
+# the retry path of fetch_url / resolve_external_location: the first request(s) of every kind fail transiently (a
+# stale pooled connection, a connect error, a timeout), and what the *retry* meets is a redirect chain — good or bad
+retry_cases = st.fixed_dictionaries(
+    {
+        "via": st.just("resolve"),
+        "sha": st.booleans(),
+        "retries": st.sampled_from([1, 2, 2]),
+        "url": _url,
+        "obj": _small_obj,
+        "cfg": st.one_of(_roomy_cfg, _roomy_cfg, _cfg),
+        "validator": st.one_of(_validator, st.fixed_dictionaries({"style": st.sampled_from(["url", "netloc", "query"]), "deny_cdn": st.booleans()})),
+        "script": st.builds(
+            _retry_script,
+            st.lists(st.sampled_from(["disconnect", "disconnect", "connect", "oserror", "timeout"]), min_size=3, max_size=3),
+            st.sampled_from([1, 1, 2]),
+            _kindsets,
+            st.one_of(_redir_bad, _redir_bad, _redir_ok),
+            st.lists(_fault, max_size=1),
+            st.sampled_from([100, 4096, 65536]),
+        ),
+    }
+)
+
+
 def _resolve_grid() -> list[dict[str, Any]]:
     """Small fixed grid: URL shape x length lie x checksum x coding, all on the parallel path through resolve_external_location."""
     grid = []
@@ -814,4 +850,5 @@ def main(chk: Check) -> None:
     chk.explore("honest", honest_cases, run_case, quick=300, thorough=5000)
     chk.explore("parallel", parallel_cases, run_case, quick=550, thorough=9000)
     chk.explore("resolve", resolve_cases, run_case, quick=250, thorough=5000)
+    chk.explore("retry", retry_cases, run_case, quick=250, thorough=5000)
     chk.enumerate("resolve_grid", _resolve_grid(), run_case)
